@@ -3,3 +3,8 @@ package props
 import "verif/harness/model"
 
 func hist_clean(p string) string { return model.Clean(p) }
+
+func remarshal(in interface{}, out interface{}) {
+	b, _ := jsonMarshal(in)
+	_ = jsonUnmarshal(b, out)
+}
